@@ -138,5 +138,11 @@ claim("C14", "model_checking",
       "steady solution of the boundary operators, and regularity at r = 0; names fixed by Catalogue.FieldLaws, tolerance of the series class. The cylindrical sandwich (8 s per call) is not scanned.",
       MEAS, TECH, "DESIGN.md 9 C14")
 
+claim("C18", "model_checking",
+      "Su-Olson campaign (epsilon 0.1 ... 2 through the user's alpha, opacity, boundary temperature; dimensionless times 0.01 ... 10; 6-7 positions incl. x = 0 and the far tail): "
+      "TLC checks the documented conversion itself (epsilon = 4a/alpha, x = sqrt3 kappa z, tau = 4ac kappa t/alpha, u = (T_rad/T_bc)^4, v = (T_mat/T_bc)^4, evaluated in sign/log arithmetic from "
+      "the user's parameters), the two diffusion equations and the Marshak condition as term vectors (differences sized to the solver's 1e-6 absolute quadrature tolerance), decay ahead of the wave, "
+      "and the ordering / monotonicity bounds.", MEAS, TECH, "DESIGN.md 9 C18")
+
 for p in [ "C07", "C08", "C09", "C10", "C11", "C12", "C13", "C14", "C15", "C16", "C18", "C19", "C20"]:
     pending(p, "check under construction in this round (design in DESIGN.md section 9); not claimed until it runs soundly on the unchanged tree")
